@@ -504,7 +504,8 @@ CRAFTED = [
     ("clickhouse", "select `Back`, \"Dbl\", 'Str' from t\n"),
     ("sqlite", "select [Bracket], \"dq\", 'sq', `bq` from t\n"),
     ("duckdb", "select {'a': 1, 'B': 2}, [1,2], a->>'Key' from t\n"),
-    ("materialize", "create cluster c1 (size = 'xsmall');\n"),
+    ("materialize", "ALTER SOURCE IF EXISTS src_name SET ( SIZE 'xsmall' );\n"),
+    ("snowflake", "alter warehouse load_wh set scaling_policy = 'Standard';\n"),
 ]
 KEYWORD_CASES = ["select", "SELECT", "SeLeCt", "Select", "sELECT", "Null", "NULL", "null", "nUlL", "TRUE", "true", "True", "tRuE", "False", "FALSE"]
 
@@ -610,9 +611,21 @@ def compare_texts(lnt, src, out, policy, fixes):
     b = tokens_of(lnt, out)[0]
     if a is None or b is None:
         return fl + [("case-only", "unexplained: output cannot be templated/lexed", {"output": out[:300]})], obs
-    fixmap = {}
+    by_raw = {}
     for fx in fixes:
-        fixmap.setdefault((fx["raw"], fx["fixed_raw"]), fx)
+        by_raw.setdefault(fx["raw"], []).append(fx)
+
+    def find_fix(raw, final):
+        """the last fix of a chain raw -> ... -> final recorded by the spy in this run (fixes chain across linter passes)"""
+        seen, todo = {raw}, [raw]
+        while todo:
+            for fx in by_raw.get(todo.pop(), []):
+                if fx["fixed_raw"] == final:
+                    return fx
+                if fx["fixed_raw"] not in seen:
+                    seen.add(fx["fixed_raw"])
+                    todo.append(fx["fixed_raw"])
+        return None
     pf = []
     if len(a) != len(b):
         pf.append(("case-only", "unexplained: token count differs", {"input_tokens": len(a), "output_tokens": len(b), "diagnosis": "unexplained: token count differs"}))
@@ -624,7 +637,7 @@ def compare_texts(lnt, src, out, policy, fixes):
                         "unexplained: word token is not a re-casing of the input token"
                     pf.append(("case-only", cls, {"input_token": x, "output_token": y, "diagnosis": cls}))
             elif (x[0], x[1], x[2]) != (y[0], y[1], y[2]):
-                fx = fixmap.get((x[1], y[1]))
+                fx = find_fix(x[1], y[1])
                 if fx:
                     cls = f"{x[0]} token rewritten by {fx['rule']} (anchor type {fx['anchor_type']})"
                 elif not x[0].startswith("placeholder") and x[2] != x[1]:
@@ -660,7 +673,15 @@ def _realign(a, out, policy, fixes):
         by_raw.setdefault(fx["raw"], []).append(fx)
 
     def resync(t):
-        cands = [fx for fx in by_raw.get(t[2], []) if out.startswith(fx["fixed_raw"], pos)]
+        # fixes chain across linter passes (snake: 'B1' -> 'b1' -> 'b_1'): follow raw -> fixed_raw transitively
+        seen, todo, cands = {t[2]}, [t[2]], []
+        while todo:
+            for fx in by_raw.get(todo.pop(), []):
+                if fx["fixed_raw"] not in seen:
+                    seen.add(fx["fixed_raw"])
+                    todo.append(fx["fixed_raw"])
+                    if out.startswith(fx["fixed_raw"], pos):
+                        cands.append(fx)
         return max(cands, key=lambda fx: len(fx["fixed_raw"])) if cands else None
     for t in a:
         if not t[3]:
@@ -782,7 +803,7 @@ def linter_runs(tier, seed):
             pols = list(E2E_POLICIES) if tier == "thorough" else ["consistent", others[k % 6], others[(k + 1 + (k // 6) % 5) % 6]]
             items.append((os.path.relpath(f, FIXTURES), _read(f), pols))
             n_files += 1
-        step = 4 if tier == "quick" else 8
+        step = 2 if tier == "quick" else 6
         for i in range(0, len(items), step):
             tasks.append(("file", d, items[i:i + step]))
     by_d = {}
@@ -841,4 +862,508 @@ def linter_runs(tier, seed):
     _CACHE[("L23-spy-table", tier, seed)] = spy_table
     return out
 
-RULE = "tbd"
+
+# ===================================================================================================== witness shrinking
+def _pieces(dialect, sql):
+    try:
+        segs, _ = Lexer(config=make_config(dialect, "consistent")).lex(sql)
+        ps = [s.raw for s in segs if s.raw]
+        if "".join(ps) == sql:
+            return ps
+    except Exception:
+        pass
+    return sql.splitlines(keepends=True)
+
+
+def shrink_sql(dialect, policy, sql, clause, cls, budget_s=5.0, max_evals=120):
+    """ddmin over the lexer tokens of `sql`: the smallest text found on which the same clause still fails with the same class"""
+    install_spy()
+    t0 = time.time()
+    evals = [0]
+
+    def pred(text):
+        evals[0] += 1
+        f, st = Fails(), _new_stats()
+        try:
+            run_case(dialect, "shrunk", text, policy, f, st)
+        except Exception:
+            return False
+        # the shrunk text must itself be an input the property speaks about: no parse / template / lex error
+        return (clause, cls) in f.best and st["skipped_parse_or_template_error"] == 0
+    if not pred(sql):
+        return sql, evals[0], False
+    ps = _pieces(dialect, sql)
+    n = 2
+    while len(ps) >= 2 and evals[0] < max_evals and time.time() - t0 < budget_s:
+        size = max(1, len(ps) // n)
+        chunks = [ps[i:i + size] for i in range(0, len(ps), size)]
+        hit = False
+        for i in range(len(chunks)):
+            cand = [p for j, c in enumerate(chunks) if j != i for p in c]
+            if cand and pred("".join(cand)):
+                ps, n, hit = cand, max(n - 1, 2), True
+                break
+            if evals[0] >= max_evals or time.time() - t0 >= budget_s:
+                break
+        if not hit:
+            if size == 1:
+                break
+            n = min(n * 2, len(ps))
+    return "".join(ps), evals[0], True
+
+
+def _shrink_task(task):
+    dialect, policy, sql, clause, cls = task
+    try:
+        return shrink_sql(dialect, policy, sql, clause, cls)
+    except Exception as e:      # a shrink failure must not hide the finding
+        return sql, 0, repr(e)
+
+
+def _final_witness(dialect, policy, sql, clause, cls):
+    """re-run the shrunk text and return the failure detail it produces (so that the reported witness is the reproduced one)"""
+    f, st = Fails(), _new_stats()
+    run_case(dialect, "shrunk witness", sql, policy, f, st)
+    b = f.best.get((clause, cls))
+    return b[2] if b else None
+
+
+# ===================================================================================================== verdicts: one failed entry per clause
+def load_known_classes():
+    """known_findings.json entries of C15 may carry `classes`: the failure classes (diagnoses) the finding stands for"""
+    p = os.path.join(ROOT, "known_findings.json")
+    try:
+        with open(p) as fh:
+            ks = json.load(fh).get("findings", [])
+    except Exception:
+        return {}
+    return {k["id"]: list(k.get("classes", [])) for k in ks if k.get("property") == PROP and k.get("status", "open") == "open"}
+
+
+def clause_verdicts(tier, seed):
+    """one failed entry per clause id.  A clause can fail for several reasons (classes, by diagnosis); the entry carries the smallest witness
+    of a class that is NOT registered in known_findings.json when there is one, so that a known class never masks a new one."""
+    ck = ("V", tier, seed)
+    if ck in _CACHE:
+        return _CACHE[ck]
+    handle_segment_direct(tier, seed)
+    linter_runs(tier, seed)
+    fa, fb = _CACHE[("L1-fails", tier, seed)], _CACHE[("L23-fails", tier, seed)]
+    known = load_known_classes()
+    per_clause, observations = {}, {}
+    for dom, fs in (("direct drive", fa), ("real lint runs", fb)):
+        for (clause, cls), (key, fn, det) in fs.best.items():
+            if clause.startswith("OBS:"):
+                observations[clause[4:]] = {"cases": fs.count[(clause, cls)], "smallest": det, "note": "not a clause of C15: the texts are equal up to letter case"}
+                continue
+            d = per_clause.setdefault(clause, {})
+            e = d.get(cls)
+            n = fs.count[(clause, cls)] + (e["count"] if e else 0)
+            if e is None or (tuple(key), 0 if dom == "direct drive" else 1) < (e["key"], e["rank"]):
+                e = {"key": tuple(key), "rank": 0 if dom == "direct drive" else 1, "function": fn, "detail": det, "found_in": dom}
+            e["count"] = n
+            d[cls] = e
+    chosen = {}
+    for clause, d in per_clause.items():
+        reg = set(known.get(clause, []))
+        unreg = sorted(c for c in d if c not in reg)
+        pool_ = unreg or sorted(d)
+        cls = min(pool_, key=lambda c: (d[c]["key"], d[c]["rank"], c))
+        chosen[clause] = (cls, unreg)
+    # shrink the SQL witnesses of the chosen failures
+    todo = []
+    for clause, (cls, _u) in sorted(chosen.items()):
+        det = per_clause[clause][cls]["detail"]
+        if isinstance(det, dict) and det.get("sql") and (det.get("policy") or det.get("e2e_policy")):
+            todo.append((clause, (det["dialect"], det.get("policy") or det.get("e2e_policy"), det["sql"], clause, cls)))
+    shrunk = {}
+    if todo:
+        with _pool(6) as pool:
+            res = pool.map(_shrink_task, [t for _, t in todo], chunksize=1)
+        for (clause, t), (sql, evals, ok) in zip(todo, res):
+            shrunk[clause] = (t, sql, evals, ok)
+    failed = []
+    for clause in sorted(per_clause):
+        cls, unreg = chosen[clause]
+        e = per_clause[clause][cls]
+        det = e["detail"]
+        info = {}
+        if clause in shrunk:
+            t, sql, evals, ok = shrunk[clause]
+            info = {"shrunk_from_chars": len(t[2]), "shrunk_to_chars": len(sql), "shrink_evaluations": evals, "reproduced_before_shrinking": ok}
+            if ok is True and sql != t[2]:
+                try:
+                    d2 = _final_witness(t[0], t[1], sql, clause, cls)
+                except Exception:
+                    d2 = None
+                if d2:
+                    det = dict(d2, input=f"{det.get('input')} (shrunk)")
+        detail = {"failure_class": cls, "smallest_failing_case": det, "found_in": e["found_in"], "shrinking": info,
+                  "failing_cases_per_class": {c: per_clause[clause][c]["count"] for c in sorted(per_clause[clause])},
+                  "witness_per_class": {c: _brief(per_clause[clause][c]["detail"]) for c in sorted(per_clause[clause])},
+                  "registered_classes": sorted(known.get(clause, [])),
+                  "unregistered_failure_classes": unreg}
+        failed.append({"name": clause, "id": clause, "kind": "bounded", "status": "failed", "function": e["function"], "backend": BACKEND,
+                       "detail": detail, "reproduced": True})
+    out = {"name": "C15-clause-verdicts", "bound": "union of C15-handle_segment-direct and C15-real-lint-fix-runs",
+           "rule": "one entry per clause id that failed on at least one case, carrying the smallest (shrunk) failing case of a failure class not "
+                   "registered in known_findings.json if there is one; no new cases (shrinking re-runs sub-texts of a failing input)",
+           "evaluations": 0, "distinct_nontrivial": 0, "samples": [{"clause_ids_evaluated": clause_ids()}],
+           "clauses_failed": [f["id"] for f in failed], "observations": observations, "failed": failed}
+    _CACHE[ck] = out
+    return out
+
+
+def _brief(det):
+    if not isinstance(det, dict):
+        return det
+    keep = ("dialect", "input", "policy", "e2e_policy", "rule", "segment_type", "segment_raw", "fixed_raw", "sql", "fixed_sql", "input_token", "output_token", "output_piece")
+    return {k: (v[:300] if isinstance(v, str) else v) for k, v in det.items() if k in keep}
+
+
+def clause_ids():
+    ids = []
+    for code in RULES:
+        ids += [f"C15/{code}/{p}/case-only" for p in policy_options(code)]
+        ids += [f"C15/{code}/fix-shape", f"C15/{code}/fix-anchor-in-allowed-family", f"C15/crawl-targets/{code}", f"C15/crawl-targets/{code}/no-quoted-token-parser"]
+    for p in E2E_POLICIES:
+        ids += [f"C15/e2e/{p}/case-only", f"C15/e2e/{p}/untouched-tokens-identical"]
+    return ids
+
+
+# ===================================================================================================== layer 2 (static): EXTRA
+QUOTED_SAMPLES = ["'A'", '"A"', "`A`", "[A]", "$$A$$", "$A$B$A$", "-- A", "/* A */", "# A", " ", "\n", "N'A'", "E'A'"]
+
+
+def walk_parsers(dialect):
+    """every token parser reachable from the dialect library (segment classes -> match_grammar, grammars -> elements/terminators/...)"""
+    seen, out = set(), []
+    stack = list(dialect._library.values())
+    while stack:
+        x = stack.pop()
+        if id(x) in seen:
+            continue
+        seen.add(id(x))
+        if isinstance(x, BaseParser):
+            out.append(x)
+        elif isinstance(x, type) and issubclass(x, BaseSegment):
+            g = getattr(x, "match_grammar", None)
+            if g is not None:
+                stack.append(g)
+        elif isinstance(x, BaseGrammar):
+            for attr in ("_elements", "terminators"):
+                stack.extend(getattr(x, attr, ()) or ())
+            for attr in ("exclude", "delimiter", "target", "start_bracket", "end_bracket"):
+                v = getattr(x, attr, None)
+                if v is not None and not isinstance(v, (str, bool, int)):
+                    stack.append(v)
+        elif isinstance(x, (list, tuple)):
+            stack.extend(x)
+    return out, len(seen)
+
+
+def quoted_match(p, forb_lex):
+    """a sample of quoted / comment / whitespace text this parser accepts, or None"""
+    if isinstance(p, TypedParser):
+        return f"<{p.template} token>" if p.template in forb_lex else None
+    if isinstance(p, RegexParser):
+        for smp in QUOTED_SAMPLES:          # mirrors RegexParser.match: full match of the (upper-cased) raw, anti-template not matching
+            raw = smp.upper() if p.ignore_case else smp
+            r = p._template.match(raw)
+            if r and r.group(0) == raw and not (p.anti_template and p._anti_template.match(raw)):
+                return smp
+        return None
+    # a quoted template without cased letters cannot be altered by a case mapping
+    if isinstance(p, MultiStringParser):
+        hit = sorted(t for t in p.templates if delimiter_kind(t) and t.upper() != t.lower())
+        return hit[0] if hit else None
+    if isinstance(p, StringParser):
+        return p.template if delimiter_kind(p.template) and p.template.upper() != p.template.lower() else None
+    return None
+
+
+def handled_by(code, seg_types):
+    """would a raw segment with these types be handed to _handle_segment by rule `code` (as far as the class constants decide it)"""
+    cls = RULES[code]
+    if not (seg_types & set(cls.crawl_behaviour.types)):
+        return False
+    if cls._eval is Rule_CP01._eval or code == "CP02":         # CP02._eval delegates to CP01._eval
+        return not (seg_types & set(cls._exclude_types))
+    return bool(seg_types & {"data_type_identifier"})          # CP05: raw data_type_identifier tokens (directly or through their parent)
+
+
+def crawl_targets(tier, seed):
+    """EXTRA, decided by evaluation over constant program data: the class constants of CP01..CP05 and the token parsers of all dialects"""
+    from sqlfluff.core.rules.crawlers import SegmentSeekerCrawler
+    failed, samples, n, ok = [], [], 0, 0
+    known = load_known_classes()
+    forb_lex = forbidden_lexer_types()
+
+    def ob(oid, classes, detail):
+        nonlocal n, ok
+        n += 1
+        if not classes:
+            ok += 1
+            if len(samples) < 4:
+                samples.append({"obligation": oid, "backend": "evaluation over constant data", **detail})
+            return
+        reg = set(known.get(oid, []))
+        unreg = sorted(c for c in classes if c not in reg)
+        failed.append({"name": oid, "id": oid, "kind": "constant-data", "status": "failed", "function": "sqlfluff.rules.capitalisation",
+                       "backend": "evaluation over constant data (exhaustive)", "reproduced": True,
+                       "detail": dict(detail, failure_classes=sorted(classes), registered_classes=sorted(reg), unregistered_failure_classes=unreg)})
+    for code, cls in RULES.items():
+        cb = cls.crawl_behaviour
+        types = set(getattr(cb, "types", ()))
+        bad = []
+        if not isinstance(cb, SegmentSeekerCrawler) or not types:
+            bad.append("crawl_behaviour is not a SegmentSeekerCrawler with a type set")
+        bad += [f"targets type {t} outside the family of {code}" for t in sorted(types - TARGET_FAMILY[code])]
+        bad += [f"targets quoted/comment/whitespace/literal type {t}" for t in sorted(types & (FORBIDDEN_PARSE_TYPES | forb_lex))]
+        if code == "CP01":
+            if "literal" not in cls._exclude_types:
+                bad.append("CP01._exclude_types does not exclude 'literal'")
+            missing = {"data_type", "datetime_type_identifier", "primitive_type"} - set(cls._exclude_parent_types)
+            if missing:
+                bad.append(f"CP01._exclude_parent_types misses {sorted(missing)}")
+        if code == "CP02" and "literal" not in cls._exclude_types:
+            bad.append("CP02._exclude_types does not exclude 'literal'")
+        if not set(policy_options(code)) <= set(E2E_POLICIES):
+            bad.append(f"policy option outside {E2E_POLICIES}: {sorted(set(policy_options(code)) - set(E2E_POLICIES))}")
+        ob(f"C15/crawl-targets/{code}", bad, {"rule": code, "crawl_types": sorted(types), "_exclude_types": list(cls._exclude_types),
+                                              "_exclude_parent_types": list(cls._exclude_parent_types), "policy_options": policy_options(code)})
+    # the grammar walk
+    offenders = {code: {} for code in RULES}
+    n_parsers = n_nodes = 0
+    for lab in DIALECTS():
+        ps, nodes = walk_parsers(dialect_selector(lab))
+        n_parsers += len(ps)
+        n_nodes += nodes
+        for p in ps:
+            seg_types = set(p._instance_types) | set(p.raw_class._class_types)
+            smp = None
+            for code in RULES:
+                if handled_by(code, seg_types):
+                    smp = smp if smp is not None else (quoted_match(p, forb_lex) or "")
+                    if smp:
+                        prim = p._instance_types[0] if p._instance_types else p.raw_class.type
+                        offenders[code].setdefault(f"{lab}: {type(p).__name__} producing {prim} ({p.raw_class.__name__}) accepts quoted text", smp)
+    for code in RULES:
+        ob(f"C15/crawl-targets/{code}/no-quoted-token-parser", sorted(offenders[code]),
+           {"rule": code, "dialects": len(DIALECTS()), "token_parsers_visited": n_parsers, "grammar_nodes_visited": n_nodes,
+            "accepted_sample_per_offender": offenders[code], "samples_tried_on_regex_parsers": QUOTED_SAMPLES,
+            "quoted_lexer_types": sorted(forb_lex)})
+    return {"name": "C15-crawl-targets", "obligations": n, "discharged": ok, "failed": failed, "undecided": [], "samples": samples,
+            "backend": "evaluation over constant data (rule class constants, dialect grammars)",
+            "trusted": ["the grammar traversal (library values -> match_grammar -> _elements/terminators/exclude/delimiter/brackets) reaches every token parser of a dialect"]}
+
+
+# ===================================================================================================== self-checks of this checker (EXTRA)
+SPECIAL = "ßẞıİǅǆǄﬁﬂΣσςſKÅµΐΰŉǰẖẗẘẙẚὐᾳῼⅰⅠⓐⒶ"      # special-casing / context-sensitive / title-case / compatibility letters
+OPS = (("upper", str.upper), ("lower", str.lower), ("capitalize", str.capitalize))
+
+
+def _law_ops(x):
+    n = norm(x)
+    return all(norm(f(x)) == n for _, f in OPS)
+
+
+def self_checks(tier, seed):
+    """Obligations about THIS CHECKER only: the laws of the normaliser, the sensitivity of the oracles to seeded faults, and the agreement of
+    the direct drive with what the real linter hands to _handle_segment.  Nothing about the property is counted as discharged here."""
+    failed, n, ok, samples = [], 0, 0, []
+
+    def ob(oid, good, detail):
+        nonlocal n, ok
+        n += 1
+        if good:
+            ok += 1
+            if len(samples) < 10:
+                samples.append({"obligation": oid, "backend": "evaluation (checker self-check)", **_js(detail)})
+        else:
+            failed.append({"name": oid, "id": oid, "kind": "self-check", "status": "failed", "function": "contracts.c15", "detail": _js(detail), "reproduced": True})
+    rng = random.Random(seed * 101 + 15)
+    # ---- laws of norm on every code point
+    bad = [hex(cp) for cp in range(0x110000) if not (0xD800 <= cp <= 0xDFFF) and not _law_ops(chr(cp))]
+    ob("C15/self-check/norm/case-ops-law[all-code-points]", not bad,
+       {"law": "norm(c.upper()) == norm(c.lower()) == norm(c.capitalize()) == norm(c)", "code_points": 0x110000 - 0x800, "violations": bad[:5]})
+    # ---- exhaustive short strings over alphabet + special characters
+    pool = list(dict.fromkeys(ALPHABET + SPECIAL))
+    L = 3
+    cnt, bad_ops, bad_cat = 0, [], []
+    for k in range(1, L + 1):
+        for t in itertools.product(pool, repeat=k):
+            x = "".join(t)
+            cnt += 1
+            if not _law_ops(x):
+                bad_ops.append(x)
+            for i in range(1, k):
+                if norm(x[:i] + x[i:]) != norm(x[:i]) + norm(x[i:]):
+                    bad_cat.append(x)
+    ob(f"C15/self-check/norm/case-ops-law[all strings len<={L} over {len(pool)} special letters]", not bad_ops, {"strings": cnt, "violations": bad_ops[:5]})
+    ob(f"C15/self-check/norm/concat-law[all splits of strings len<={L} over {len(pool)} special letters]", not bad_cat,
+       {"law": "norm(x + y) == norm(x) + norm(y)", "strings": cnt, "violations": bad_cat[:5]})
+    # ---- random multi-character strings
+    big = pool + [chr(c) for c in range(0x20, 0x250)] + [chr(c) for c in range(0x370, 0x400)] + [chr(c) for c in range(0x1F00, 0x2000)]
+    N = 100000 if tier == "quick" else 400000
+    bad_ops, bad_cat = [], []
+    for _ in range(N):
+        x = "".join(rng.choice(big if rng.random() < 0.5 else pool) for _ in range(rng.randint(1, 8)))
+        if not _law_ops(x):
+            bad_ops.append(x)
+        i = rng.randint(0, len(x))
+        if norm(x) != norm(x[:i]) + norm(x[i:]):
+            bad_cat.append(x)
+    ob("C15/self-check/norm/case-ops-law[random multi-character strings]", not bad_ops, {"strings": N, "pool": len(big), "violations": bad_ops[:5]})
+    ob("C15/self-check/norm/concat-law[random multi-character strings]", not bad_cat, {"strings": N, "violations": bad_cat[:5]})
+    # ---- the obvious simpler normalisers do NOT satisfy the law (so the choice matters), each with its witness
+    alts = {"lower": str.lower, "upper": str.upper, "casefold": str.casefold}
+    wit = {}
+    for name, f in alts.items():
+        for x in pool:
+            w = next((op for op, g in OPS if f(g(x)) != f(x)), None)
+            if w:
+                wit[name] = {"string": x, "operation": w, "alt(op(x))": f(getattr(x, w)()), "alt(x)": f(x)}
+                break
+    ob("C15/self-check/norm/simpler-normalisers-refuted", set(wit) == set(alts), {"witnesses": wit})
+    # ---- case_eq separates what the property separates
+    sep = [("fooBar", "foo_bar"), ("a b", "ab"), ("é", "e"), ("a", "á"), ("1", "l"), ("'x'", '"x"'), ("ab", "ba"), ("a", "aa"), ("a ", "a"),
+           ("a\n", "a\r\n"), ("-- x", "--x"), ("0x1F", "0x1G")]
+    same = [("straße", "STRASSE"), ("İ", "i̇"), ("ǅ", "ǆ"), ("Σας", "σασ"), ("ﬁ", "FI"), ("select", "SeLeCt"), ("ıI", "Ii")]
+    ob("C15/self-check/case_eq/separates-non-case-differences", not [p for p in sep if case_eq(*p)], {"pairs": sep})
+    ob("C15/self-check/case_eq/accepts-case-differences", all(case_eq(*p) for p in same), {"pairs": same})
+    # ---- the _handle_segment contract rejects seeded faulty results (built on a real harvested context)
+    install_spy()
+    protos = _DIRECT.get("protos") or harvest_contexts()
+    seg, ctx = protos["CP02"]["naked_identifier"]
+    rule, cfg = rule_object("ansi", "CP02", "upper")
+    parent = ctx.parent_stack[-1]
+    other = protos["CP01"]["keyword"][0]
+
+    def verdict(result):
+        f = Fails()
+        handle_segment_contract(rule, seg, {}, result, f, lambda: {}, True)
+        return sorted(c for c, _ in f.best)
+    rule._handle_segment(seg.edit("zz"), dataclasses.replace(ctx, config=cfg, memory={}))        # initialises rule.cap_policy
+    good = LintResult(anchor=seg, fixes=[LintFix.replace(seg, [seg.edit(seg.raw.upper())])])
+    faults = {
+        "two fixes": LintResult(anchor=seg, fixes=[LintFix.replace(seg, [seg.edit("A")]), LintFix.replace(seg, [seg.edit("A")])]),
+        "anchor is the parent": LintResult(anchor=seg, fixes=[LintFix.replace(parent, [seg.edit("A")])]),
+        "create_after instead of replace": LintResult(anchor=seg, fixes=[LintFix.create_after(seg, [seg.edit("A")])]),
+        "edit of another class": LintResult(anchor=seg, fixes=[LintFix.replace(seg, [other.edit("A")])]),
+        "two edit segments": LintResult(anchor=seg, fixes=[LintFix.replace(seg, [seg.edit("A"), seg.edit("A")])]),
+        "underscore inserted": LintResult(anchor=seg, fixes=[LintFix.replace(seg, [seg.edit("_" + seg.raw.upper())])]),
+        "letter replaced": LintResult(anchor=seg, fixes=[LintFix.replace(seg, [seg.edit("Q")])]),
+    }
+    ob("C15/self-check/contract/accepts-a-correct-fix", verdict(good) == [], {"segment_raw": seg.raw, "clauses_failed": verdict(good)})
+    for name, res in faults.items():
+        v = verdict(res)
+        ob(f"C15/self-check/contract/rejects[{name}]", bool(v), {"fault": name, "clauses_failed": v})
+    # ---- the e2e comparison rejects seeded faulty outputs and accepts a pure re-casing
+    lnt = _linter("ansi", "upper")
+    src = "select a, 'Str', \"Qid\" -- Note\nfrom t /* Blk */ where b = 1.5e3\n"
+    outs = {
+        "string literal re-cased": src.replace("'Str'", "'STR'"), "quoted identifier re-cased": src.replace('"Qid"', '"QID"'),
+        "inline comment re-cased": src.replace("-- Note", "-- NOTE"), "block comment re-cased": src.replace("/* Blk */", "/* BLK */"),
+        "whitespace changed": src.replace("from t", "from  t"), "numeric literal re-cased": src.replace("1.5e3", "1.5E3"),
+        "word replaced": src.replace("where b", "where c"), "underscore inserted": src.replace("select a", "select _a"),
+        "token dropped": src.replace(", 'Str'", ""), "newline dropped": src.replace("-- Note\n", "-- Note"),
+    }
+    v0 = compare_texts(lnt, src, src.replace("select a", "SELECT A").replace("from t", "From T").replace("where b", "WHERE B"), "upper", [])[0]
+    ob("C15/self-check/e2e-oracle/accepts-pure-recasing", v0 == [], {"input": src, "failures": [(c, k) for c, k, _ in v0]})
+    for name, o in outs.items():
+        v = compare_texts(lnt, src, o, "upper", [])[0]
+        ob(f"C15/self-check/e2e-oracle/rejects[{name}]", bool(v), {"fault": name, "failures": [(c, k) for c, k, _ in v]})
+    jsrc = "select {{ 'Select' }} as a, b {# Note #} from t {% if true %}where X = 1{% endif %}\n"
+    for name, o in {"templated expression re-cased": jsrc.replace("{{ 'Select' }}", "{{ 'SELECT' }}"), "template comment re-cased": jsrc.replace("{# Note #}", "{# NOTE #}"),
+                    "block tag re-cased": jsrc.replace("{% if true %}", "{% IF TRUE %}")}.items():
+        try:
+            v = compare_texts(lnt, jsrc, o, "upper", [])[0]
+        except Exception as e:      # an output the templater refuses is a rejection too
+            v = [("case-only", repr(e), {})]
+        ob(f"C15/self-check/e2e-oracle/rejects[{name}]", bool(v), {"fault": name, "failures": [(c, k) for c, k, _ in v]})
+    vj = compare_texts(lnt, jsrc, jsrc.replace("as a, b", "AS A, B").replace("where X", "WHERE x"), "upper", [])[0]
+    ob("C15/self-check/e2e-oracle/accepts-recasing-of-literal-code-in-a-template", vj == [], {"input": jsrc, "failures": [(c, k) for c, k, _ in vj]})
+    # ---- the direct drive and the real linter agree on what _handle_segment returns for the same (rule, policy, text)
+    handle_segment_direct(tier, seed)
+    linter_runs(tier, seed)
+    table, spy = _CACHE[("L1-table", tier, seed)], _CACHE[("L23-spy-table", tier, seed)]
+    cmp_, dis = 0, []
+    for code, pol, atype, raw, fixed in sorted(spy):
+        t = table.get((code, pol), {})
+        for key, dfix in t.items():
+            if key.split("|", 1)[1] == raw:
+                cmp_ += 1
+                if dfix != fixed:
+                    dis.append({"rule": code, "policy": pol, "raw": raw, "linter": fixed, "direct": dfix})
+                break
+    ob("C15/self-check/direct-drive-agrees-with-linter", cmp_ > 0 and not dis,
+       {"fixes_seen_by_the_spy_in_token_template_runs_with_explicit_policy": len(spy), "compared_with_direct_drive": cmp_, "disagreements": dis[:5]})
+    a, b = _CACHE[("L1", tier, seed)], _CACHE[("L23", tier, seed)]
+    cases = [{"case": "direct drive", **x} for x in a["samples"][:2]] + [{"case": "real lint+fix run", **x} for x in b["samples"][:1]]
+    return {"name": "C15-checker-self-checks", "obligations": n, "discharged": ok, "failed": failed, "undecided": [],
+            "samples": cases[:3] + samples, "backend": "evaluation (checker self-checks only; the property is bounded, not proved)", "trusted": []}
+
+
+EXTRA = [self_checks, crawl_targets]
+BOUNDED = [handle_segment_direct, linter_runs, clause_verdicts]
+
+RULE = ("cases are (a) calls of the real Rule_CP0x._handle_segment: one per (rule, policy value, memory state, segment type, segment text), the texts "
+        "enumerated exhaustively over a 9-letter alphabet (a B _ 1 and the special-casing letters e-acute, sharp s, dotted capital I, dotless i, sigma) "
+        "up to length 5, on RuleContexts harvested from a real lint run; non-trivial = the call returned a fix (counted; all such cases are distinct by "
+        "construction); (b) real runs Linter.lint_string(sql, fix=True) + fix_string, one per (dialect, input, policy): seeded fixture files, crafted "
+        "statements, token-template queries; non-trivial = the fix changed the text (distinct (dialect, input, policy) triples counted). "
+        "distinct_nontrivial is the measured sum of the two; evaluations = _handle_segment calls checked (direct + spied) + end-to-end comparisons.")
+
+EXPLANATION = (
+    "BOUNDED stand-in for C15; nothing is proved (regex.sub with lambdas, dict memory and try/except AttributeError in _handle_segment are outside the "
+    "pyvc engine). The property is turned into executable clauses. Layer 1: every LintResult returned by _handle_segment that has fixes has exactly one, "
+    "a replace anchored on the handled segment with one edit segment of the same class and types, and case_eq(fixed_raw, segment.raw) with "
+    "case_eq(a,b) := norm(a)==norm(b), norm(x)=x.upper().casefold(); one clause id per (rule, configured policy). Layer 2: the class constants "
+    "(crawl types, exclusions, policy options) are inside the family the property names, no token parser of any of the 28 dialect grammars gives a "
+    "quoted/comment/whitespace token a type that a CP rule handles, and every fix anchor observed in the real runs is an unquoted raw segment of the "
+    "family. Layer 3: the fixed text is templated and lexed with the real templater/lexer next to the input; tokens that are not unquoted words in literal "
+    "source (whitespace, comments, quoted identifiers, strings, numbers, symbols, template tags and everything rendered from a tag) must be "
+    "byte-identical, word tokens case_eq. A clause can fail for several reasons; failures are grouped by a diagnosis string (class). Each failing clause "
+    "yields ONE failed entry with the smallest (ddmin-shrunk) witness; known_findings.json entries of C15 list the classes they stand for in `classes`, and "
+    "the entry reports `unregistered_failure_classes` (the witness is taken from an unregistered class when there is one), which is what the known "
+    "finding's witness_contains pins to []: a new class, or a new failing clause id, exits 1. coverage.obligations/discharged count only checker "
+    "self-checks and the exhaustive constant-data obligations of layer 2, not bounded clauses.")
+
+TRUSTED = [
+    "norm(x) = x.upper().casefold() as the meaning of 'equal except letter case' (laws self-checked on all code points and on random strings; it identifies "
+    "letters sharing an upper-case form: dotless i ~ i, long s ~ s, final sigma ~ sigma, Kelvin sign ~ k)",
+    "the real lexer's token types as the meaning of whitespace / comment / quoted identifier / string / number / symbol: only tokens of lexer type 'word' in "
+    "literal (untemplated) source may change case",
+    "the spy wrapped around Rule_CP01._handle_segment returns the original result unchanged",
+    "the diagnosis strings (failure classes) partition failures correctly; an unrecognised failure gets an 'unexplained: ...' class, which is never registered",
+]
+NOT_COVERED = [
+    "anything outside the stated bounds: token texts longer than 5 or over other letters, fixture files not drawn by the seed or longer than the tier's cap, "
+    "inputs with parse / template / lex errors (the linter does not fix those by default; counted as skipped)",
+    "options ignore_words, ignore_words_regex, ignore_templated_areas, unquoted_identifiers_policy (they only make _eval/_handle_segment return early)",
+    "the Rust detection path (_eval_rust / sqlfluffrs): not built here, the Python path runs",
+    "whether a re-cased unquoted identifier still denotes the same object in a case-sensitive dialect (a semantic question, not C15)",
+    "that the fixed text still lexes the same way: lower('\u0130') = 'i' + U+0307 no longer lexes as one word in postgres (reported under observations, texts are case-equal)",
+    "CR LF handling of file paths (Linter reads with universal newlines); only the lint_string observable is checked, where the CR LF -> LF rewrite is a registered class",
+]
+
+# ===================================================================================================== must-fail mutants
+_CP01 = "sqlfluff/rules/capitalisation/CP01.py"
+MUTANTS = [
+    ("upper_branch_drops_underscores", _CP01, "                fixed_raw = fixed_raw.upper()", "                fixed_raw = fixed_raw.upper().replace(\"_\", \"\")"),
+    ("capitalise_branch_uses_title_and_strips", _CP01, "                fixed_raw = fixed_raw.capitalize()", "                fixed_raw = fixed_raw.title().replace(\"1\", \"l\")"),
+    ("pascal_lambda_drops_group3", _CP01, "lambda match: match.group(1) + match.group(2).upper() + match.group(3),", "lambda match: match.group(1) + match.group(2).upper(),"),
+    ("camel_lambda_drops_group1", _CP01, "lambda match: match.group(1) + match.group(2).lower() + match.group(3),", "lambda match: match.group(2).lower() + match.group(3),"),
+    ("get_fix_anchors_on_parent", _CP01, "        return LintFix.replace(segment, [segment.edit(fixed_raw)])",
+     "        return LintFix.replace(segment.get_parent()[0] if segment.get_parent() else segment, [segment.edit(fixed_raw)])"),
+    ("handle_segment_returns_two_fixes", _CP01, "                fixes=[self._get_fix(segment, fixed_raw)],\n                memory=memory,",
+     "                fixes=[self._get_fix(segment, fixed_raw), self._get_fix(segment, fixed_raw)],\n                memory=memory,"),
+    ("cp02_crawls_quoted_identifiers", "sqlfluff/rules/capitalisation/CP02.py", '        {"naked_identifier", "properties_naked_identifier"}',
+     '        {"naked_identifier", "properties_naked_identifier", "quoted_identifier"}'),
+    ("cp01_exclude_types_emptied", _CP01, '    _exclude_types: tuple[str, ...] = ("literal",)', "    _exclude_types: tuple[str, ...] = ()"),
+    ("snake_applied_for_consistent", _CP01, '                concrete_policy = memory.get("latest_possible_case", "upper")', '                concrete_policy = "snake"'),
+    ("lower_branch_strips_accents", _CP01, "                fixed_raw = fixed_raw.lower()", "                fixed_raw = fixed_raw.lower().replace(\"\\u00e9\", \"e\")"),
+    ("cp04_crawls_quoted_literals", "sqlfluff/rules/capitalisation/CP04.py", 'SegmentSeekerCrawler({"null_literal", "boolean_literal"})',
+     'SegmentSeekerCrawler({"null_literal", "boolean_literal", "quoted_literal"})'),
+]
